@@ -91,6 +91,7 @@ Definition representable_prototype (exts : list extension) (proto : list record)
   integer_rule proto ReturnCount /\ integer_rule proto ReturnIndex /\
   integer_rule proto RowIndex /\ integer_rule proto ColumnIndex /\
   (forall p, In p proto -> range_ok (r_type p)) /\
+  NoDup (map r_name proto) /\
   (forall ns name t, In (mkRecord (Unknown ns name) t) proto ->
      name_wf ns /\ name_wf name /\ name_start_ok name /\ registered exts ns) /\
   fits_packet proto.
@@ -227,14 +228,39 @@ Definition rules_part (proto : list record) : Prop :=
   not_integer_rule proto SphericalAzimuth /\ not_integer_rule proto SphericalElevation /\
   integer_rule proto ReturnCount /\ integer_rule proto ReturnIndex /\
   integer_rule proto RowIndex /\ integer_rule proto ColumnIndex /\
-  (forall p, In p proto -> range_ok (r_type p)).
+  (forall p, In p proto -> range_ok (r_type p)) /\
+  NoDup (map r_name proto) /\ nodup_names proto = true.
+
+Lemma in_contains proto p : In p proto -> contains proto (r_name p) = true.
+Proof. intros H. apply contains_has. exists (r_type p). destruct p; exact H. Qed.
+
+Lemma nodup_names_NoDup : forall proto, nodup_names proto = true -> NoDup (map r_name proto).
+Proof.
+  induction proto as [|p r IH]; cbn [nodup_names map]; intros H; [constructor|].
+  apply andb_prop in H as [H1 H2]. constructor; [|apply IH; exact H2].
+  intros Hin. apply in_map_iff in Hin as (q & Hq & Hin).
+  pose proof (in_contains _ _ Hin) as Hc. rewrite Hq in Hc. rewrite Hc in H1. discriminate.
+Qed.
+
+Lemma nodup_get_rec : forall proto p, nodup_names proto = true -> In p proto ->
+  get_rec proto (r_name p) = Some p.
+Proof.
+  induction proto as [|q r IH]; intros p H Hin; [destruct Hin|].
+  cbn [nodup_names] in H. apply andb_prop in H as [H1 H2]. cbn [get_rec find].
+  destruct Hin as [->|Hin].
+  - rewrite (proj2 (name_eqb_eq (r_name p) (r_name p)) eq_refl). reflexivity.
+  - destruct (name_eqb (r_name q) (r_name p)) eqn:E.
+    + apply name_eqb_eq in E. pose proof (in_contains _ _ Hin) as Hc. rewrite <- E in Hc.
+      rewrite Hc in H1. discriminate.
+    + apply IH; assumption.
+Qed.
 
 Lemma validate_prototype_ok proto : validate_prototype proto = Ok tt -> rules_part proto.
 Proof.
   unfold validate_prototype. intros H.
   apply seq_res_ok in H as [Hc H]. apply seq_res_ok in H as [Hs H].
   apply seq_res_ok in H as [Hco H]. apply seq_res_ok in H as [Hcol H].
-  apply seq_res_ok in H as [Hret H]. apply seq_res_ok in H as [Hrng H].
+  apply seq_res_ok in H as [Hret H]. apply seq_res_ok in H as [Hnd H]. apply seq_res_ok in H as [Hrng H].
   apply seq_res_ok in H as [Hrow H]. apply seq_res_ok in H as [Hcl H].
   apply seq_res_ok in H as [Hii Hts].
   unfold validate_cartesian in Hc. cbv zeta in Hc.
@@ -262,10 +288,33 @@ Proof.
   split; [apply not_integer_if_present_ok; exact Hs3|]. split; [apply not_integer_if_present_ok; exact Hs4|].
   split; [apply integer_if_present_ok; exact Hr1|]. split; [apply integer_if_present_ok; exact Hr2|].
   split; [apply integer_if_present_ok; exact Hrow|]. split; [apply integer_if_present_ok; exact Hcl|].
+  destruct (nodup_names proto) eqn:End; [|discriminate].
+  split; [|split; [apply nodup_names_NoDup; exact End|reflexivity]].
   intros p Hin.
   destruct (forallb (fun p => range_nonempty (r_type p)) proto) eqn:Ef; [|discriminate].
   rewrite forallb_forall in Ef. specialize (Ef p Hin).
   unfold range_nonempty in Ef. unfold range_ok. destruct (r_type p); try exact I; lia.
+Qed.
+
+(** every record that feeds an index bound has an integer type: the rule check looks at
+    the first record of a name, and names do not repeat *)
+Definition idx_typed (proto : list record) : Prop :=
+  forall p, In p proto ->
+    match axis_of (r_name p) with
+    | Some (AxI _) => exists mn mx, r_type p = DInteger mn mx
+    | _ => True
+    end.
+
+Lemma accepted_idx_typed proto : validate_prototype proto = Ok tt -> idx_typed proto.
+Proof.
+  intros H. apply validate_prototype_ok in H.
+  destruct H as (_ & _ & _ & _ & _ & _ & _ & _ & _ & _ & _ & _ & _ & Hri & Hrow & Hcol & _ & _ & Hnd).
+  intros p Hin. pose proof (nodup_get_rec proto p Hnd Hin) as Hg.
+  destruct (get_rec_first _ _ _ Hg) as (_ & Hf).
+  destruct (r_name p) eqn:En; cbn [axis_of]; try exact I.
+  - apply (Hrow _ Hf).
+  - apply (Hcol _ Hf).
+  - apply (Hri _ Hf).
 Qed.
 
 (** ** extension names *)
@@ -366,7 +415,7 @@ Lemma accepted_type_ok proto : validate_prototype proto = Ok tt -> proto_i64 pro
   forallb type_ok (proto_dtypes proto) = true.
 Proof.
   intros H Hw. apply validate_prototype_ok in H.
-  destruct H as (_ & _ & _ & _ & _ & _ & _ & _ & _ & _ & _ & _ & _ & _ & _ & _ & Hr).
+  destruct H as (_ & _ & _ & _ & _ & _ & _ & _ & _ & _ & _ & _ & _ & _ & _ & _ & Hr & _).
   unfold proto_dtypes. rewrite forallb_forall. intros t Ht. apply in_map_iff in Ht as (p & Hp & Hin).
   subst t. specialize (Hr p Hin). specialize (Hw p Hin). unfold rec_dtype, range_ok in *.
   destruct (r_type p); cbn [dtype_of type_ok]; try reflexivity;
@@ -393,9 +442,6 @@ Definition bounds_cover (proto : list record) (b : run_bounds) : Prop :=
     | Some (AxI a) => iget a b <> None
     | None => True
     end.
-
-Lemma in_contains proto p : In p proto -> contains proto (r_name p) = true.
-Proof. intros H. apply contains_has. exists (r_type p). destruct p; exact H. Qed.
 
 Lemma bounds_new_cover proto : validate_prototype proto = Ok tt -> bounds_cover proto (bounds_new proto).
 Proof.
